@@ -22,19 +22,35 @@ import (
 	"verifharness/pkg/hx"
 )
 
-func triplesOf(c *flows.Contact) ([]string, string) {
-	var ts, shape []string
+// the URN list of a real contact: as model tuples (scheme, path, affinity, URN text without the query), as the part a
+// twin must share (schemes and affinities in order), and the countries derivable from the tel paths
+func triplesOf(c *flows.Contact) ([]string, string, string) {
+	var ts, shape, countries []string
 	for _, u := range c.URNs() {
 		m := snapURN(u.URN(), u.Channel())
-		ts = append(ts, fmt.Sprintf("(%s, %s, %s)", coqStr(m.Scheme), coqStr(m.Path), coqStr(m.Affinity)))
+		scheme, path, _, display := u.URN().ToParts()
+		text := scheme + ":" + path
+		if display != "" {
+			text += "#" + display
+		}
+		ts = append(ts, fmt.Sprintf("(%s, %s, %s, %s)", coqStr(m.Scheme), coqStr(m.Path), coqStr(m.Affinity), coqStr(text)))
 		shape = append(shape, m.Scheme+"?"+m.Affinity)
+		countries = append(countries, m.Country)
 	}
-	return ts, fmt.Sprint(shape)
+	return ts, fmt.Sprint(shape), fmt.Sprint(countries)
+}
+
+// channels of the operations stream: a tel channel without a country, one with, two gateways for ext and mailto
+var opChans = []chanDef{
+	{UUID: chTelA, Name: "Line", Address: "2020", Schemes: []string{"tel"}, Roles: sr},
+	{UUID: chTelB, Name: "RW Line", Address: "+250788000000", Schemes: []string{"tel"}, Roles: sr, Country: "RW"},
+	{UUID: chFB, Name: "Gateway A", Address: "gwa", Schemes: []string{"ext", "mailto", "facebook"}, Roles: sr},
+	{UUID: chTG, Name: "Gateway B", Address: "gwb", Schemes: []string{"ext", "mailto", "telegram"}, Roles: sr},
+	{UUID: chRecv, Name: "Receive Only", Address: "rx", Schemes: []string{"tel", "ext"}, Roles: []string{"receive"}},
 }
 
 func runURNOps(o *hx.Opts, r *hx.Rand, res *hx.Result, em *emitter) {
-	variant := 0
-	src, err := static.NewSource([]byte(fmt.Sprintf(`{"channels": %s}`, mustJSON(chanVariants[variant].chans))))
+	src, err := static.NewSource([]byte(fmt.Sprintf(`{"channels": %s}`, mustJSON(opChans))))
 	if err != nil {
 		panic(err)
 	}
@@ -50,11 +66,11 @@ func runURNOps(o *hx.Opts, r *hx.Rand, res *hx.Result, em *emitter) {
 		for j, ns := 0, rr.Range(0, 4); j < ns; j++ {
 			scheme := "tel"
 			if rr.Bool() {
-				scheme = hx.Pick(rr, []string{"facebook", "telegram", "twitterid", "mailto", "whatsapp"})
+				scheme = hx.Pick(rr, []string{"facebook", "telegram", "twitterid", "mailto", "mailto", "ext", "ext", "whatsapp"})
 			}
 			aff := ""
 			if rr.Chance(1, 4) {
-				aff = hx.Pick(rr, chanVariants[variant].chans).UUID
+				aff = hx.Pick(rr, opChans).UUID
 			}
 			tc.Slots = append(tc.Slots, genSlot(rr, scheme, aff, 0, rr.Chance(1, 6)))
 		}
@@ -73,8 +89,12 @@ func runURNOps(o *hx.Opts, r *hx.Rand, res *hx.Result, em *emitter) {
 			u := urns.URN(tc.Slots[rr.Intn(len(tc.Slots))].A)
 			scheme, path, _, _ := u.ToParts()
 			cand, _ = urns.NewFromParts(scheme, path, nil, "")
+			if cand == "" { // a held URN that does not survive re-normalization cannot be written as a candidate
+				cand = urns.URN("telegram:" + digits(rr, 9))
+				kind = kind[:len(kind)-len("held-a")] + "fresh"
+			}
 		case "prefer":
-			c := hx.Pick(rr, chanVariants[variant].chans)
+			c := hx.Pick(rr, opChans)
 			ch = sa.Channels().Get(assets.ChannelUUID(c.UUID))
 			opCoq = func() string { return "UPrefer (Some " + c.coq() + ")" }
 		case "prefer-none":
@@ -89,12 +109,13 @@ func runURNOps(o *hx.Opts, r *hx.Rand, res *hx.Result, em *emitter) {
 				opCoq = func() string { return "URemove " + m.coq() }
 			}
 		}
-		var shapes [2]string
+		var shapes, countriesBefore, countriesAfter [2]string
 		var lens [2]int
 		heldBefore := [2]bool{}
 		for side := 0; side < 2; side++ {
 			c := readQueryContact(sa, tc, side)
 			beforeURNs := readQueryContact(sa, tc, side)
+			_, _, countriesBefore[side] = triplesOf(beforeURNs)
 			if cand != "" {
 				heldBefore[side] = c.HasURN(cand)
 			}
@@ -106,8 +127,8 @@ func runURNOps(o *hx.Opts, r *hx.Rand, res *hx.Result, em *emitter) {
 			default:
 				c.UpdatePreferredChannel(ch)
 			}
-			after, shape := triplesOf(c)
-			shapes[side], lens[side] = shape, len(c.URNs())
+			after, shape, cs := triplesOf(c)
+			shapes[side], lens[side], countriesAfter[side] = shape, len(c.URNs()), cs
 			em.add(fmt.Sprintf("COp {| o_op := %s; o_before := %s; o_after := [%s] |}", opCoq(), urnsOfContact(beforeURNs), joinStrs(after)),
 				map[string]any{"kind": "urn-op", "op": kind, "candidate": string(cand), "contacts": tc, "side": side}, map[string]any{"after": shape})
 			res.Dist("corr=urn-op")
@@ -119,7 +140,12 @@ func runURNOps(o *hx.Opts, r *hx.Rand, res *hx.Result, em *emitter) {
 		switch {
 		case kind == "prefer" || kind == "prefer-none":
 			if shapes[0] != shapes[1] {
-				res.Fail("leak:set_contact_channel:effect-depends-on-path", input, fmt.Sprintf("UpdatePreferredChannel leaves the twins with %s vs %s", shapes[0], shapes[1]))
+				res.Fail("leak:set_contact_channel:effect-depends-on-path", input, fmt.Sprintf("UpdatePreferredChannel leaves the twins with %s vs %s (scheme?affinity in order)", shapes[0], shapes[1]))
+			}
+			// twins have the same derivable tel countries; they must still have after the operation (Contact.Country and
+			// GetForURN's candidate filter read them)
+			if countriesBefore[0] == countriesBefore[1] && countriesAfter[0] != countriesAfter[1] {
+				res.Fail("leak:set_contact_channel:derived-country-differs-afterwards", input, fmt.Sprintf("before UpdatePreferredChannel the twins' tel URNs derive countries %s, afterwards %s vs %s", countriesBefore[0], countriesAfter[0], countriesAfter[1]))
 			}
 		case kind[:3] == "add" && heldBefore[0] == heldBefore[1]:
 			if shapes[0] != shapes[1] {
